@@ -5,9 +5,9 @@
 set -u
 id="$1"; name="$2"; demo="$3"; shift 3
 checks="${*:-$id}"
-wt=/tmp/wt-$id
+wt=${WT_PREFIX:-/tmp/wt-}$id
 [ -f $wt/seed/patch.diff ] || { echo "no seed in $wt"; exit 2; }
-res=$(/tmp/demo_check.sh "$id" "$demo")
+res=$(/verif/demo_check.sh "$id" "$demo")
 echo "$res"
 dst=/verif/seeded/$name
 mkdir -p $dst
